@@ -18,12 +18,12 @@ def tasks(tier, seed):
     for cls in codec.classes():
         if cls in HEAVY:
             continue
-        txt = ('#define VP_DEC_CUTS %d\n' % (2 if tier == 'quick' else 3)) + codec.gen(cls, maxlen=4)
+        txt = ('#define VP_DEC_CUTS 2\n' if tier == 'quick' else '#define VP_DEC_ALL 1\n') + codec.gen(cls, maxlen=4)
         ts.append(Task('%s.h_dec' % cls, txt, 'h_dec', None,
                        opts=dict(alloc_policy=(small, 1 << 28), max_paths=200000, enum_limit=6000,
                                  max_wall=240 if tier == 'quick' else 1500, validate=False),
                        desc='%s::read on a stream whose bytes after the LOBJ signature are all symbolic; stream size = '
-                            'fixed part + 8 (and cut by 5, 10); allocation: symbolic sizes split into <= %d (all '
+                            'fixed part + 8 (quick: also cut by 5; thorough: every stream size 0..full); allocation: symbolic sizes split into <= %d (all '
                             'values), larger-but-materialisable (one representative), > 256 MiB (bad_alloc)' % (cls, small),
                        reach=('h_dec:end',), bounds='stream <= fixed part + 8 bytes',
                        kinds={'memory', 'assert', 'uncaught_exception', 'terminate', 'trap', 'unreachable', 'deadlock'}))
@@ -37,7 +37,7 @@ def tasks(tier, seed):
                         'unknown 200, 0, LOG_CONTAINER}; whole read session (3 threads, cooperative schedule): open, '
                         'read until null (<= 50 objects), close; no deadlock, no livelock, no memory error',
                    reach=('end',), bounds='one corrupted object header; all 2^32 sizes x 6 type codes',
-                   kinds={'memory', 'assert', 'uncaught_exception', 'terminate', 'deadlock', 'hang', 'limit', 'trap'}))
+                   kinds={'memory', 'assert', 'uncaught_exception', 'terminate', 'deadlock', 'hang', 'limit', 'trap', 'leak'}))
     csrc = open(os.path.join(HERE, 'harness', 'c10_container_hostile.cpp')).read()
     variants = [(0, 0, 1), (0, 0, 2), (0, 0, 4), (6, 0, 1), (6, 0, 4), (0, 1, 0)]
     if tier != 'quick':
@@ -55,7 +55,7 @@ def tasks(tier, seed):
                              'followed by further containers, gets a symbolic 32-bit objectSize and a type code from {CAN_MESSAGE, '
                              'CAN_MESSAGE2, APP_TEXT, unknown 200, 0}'),
                        reach=('h_container:end',), bounds='one corrupted header; all values of the symbolic fields',
-                       kinds={'memory', 'assert', 'uncaught_exception', 'terminate', 'deadlock', 'hang', 'limit', 'trap'}))
+                       kinds={'memory', 'assert', 'uncaught_exception', 'terminate', 'deadlock', 'hang', 'limit', 'trap', 'leak'}))
     meta = dict(
         level='model_checking',
         explanation='(1) Memory safety of every decoder: the real <Type>::read runs on symbolic bytes; every load/store is '
